@@ -179,3 +179,16 @@ Example C27_valid_resume_example :
   | Err _ => False
   end.
 Proof. vm_compute. auto. Qed.
+
+(* Round 7 -- the CONTENT of the resume marker `last_finished_iteration` (what a later call with
+   resume=True continues from).  For every variant, option record and environment: if the marker found
+   at entry (if any) names an iteration below total_iterations, so does the marker left behind -- a
+   resumed call therefore never starts beyond total_iterations; and a dry run leaves the marker alone. *)
+Theorem C27_marker_below_total : forall (v : variant) (o : opts) (e : env) (x : nat),
+  (forall l, last0 e = Some l -> l < total o) ->
+  marker_after v o e = Some x -> x < total o.
+Proof. exact marker_below_total. Qed.
+
+Theorem C27_marker_dry_run : forall (v : variant) (o : opts) (e : env),
+  dry o = true -> marker_after v o e = last0 e.
+Proof. exact marker_dry_unchanged. Qed.
